@@ -427,7 +427,9 @@ func (l *lexer) stop() {
 // input in front of the character the lexer may have stumbled over.
 func (l *lexer) wait() error {
 	l.stop()
+	verifHook(l, hkJoinBefore)
 	<-l.done
+	verifHook(l, hkJoinAfter)
 
 	l.mu.Lock()
 	defer l.mu.Unlock()
